@@ -50,8 +50,10 @@ def gen_case(rnd):
     form = rnd.choice(FORMS)
     if partial and form.startswith(('super', 'apply')):
         form = 'function'
+    # a wrapper that has no *args / **kwargs at all may still be declared with use_varargs=False /
+    # use_varkwargs=False: a redundant way of saying the same thing
     return dict(o=o, i=i, n=n, names=names, pass_va=pass_va, pass_vk=pass_vk, hide_args=hide_args,
-                hide_kwargs=hide_kwargs, partial=partial, form=form)
+                hide_kwargs=hide_kwargs, partial=partial, form=form, redundant_flags=rnd.random() < 0.5)
 
 
 def foreign_values(c):
@@ -103,9 +105,10 @@ def decl_args(c, lead=()):
     parts = [repr(x) for x in lead] + [str(c['n'])] + [repr(k) for k in c['names']]
     flags = []
     o = c['o']
-    if sigs.star_name(o, VA) and not c['pass_va']:
+    red = c.get('redundant_flags', False)
+    if (sigs.star_name(o, VA) and not c['pass_va']) or (red and not sigs.star_name(o, VA)):
         flags.append('use_varargs=False')
-    if sigs.star_name(o, VK) and not c['pass_vk']:
+    if (sigs.star_name(o, VK) and not c['pass_vk']) or (red and not sigs.star_name(o, VK)):
         flags.append('use_varkwargs=False')
     if c['hide_args']:
         flags.append('hide_args=True')
